@@ -1401,4 +1401,49 @@ func contiguousUpTo(r *RepData, n int) bool {
 // last-flag, each with its representation's content type.
 //@ func (*cmafIngester).sendMediaSegments
 //@   wiring
+//@   callsite generateTimelineEntries requires offsetInMs: arg_atoMS == int(c.cfg.AvailabilityTimeOffsetS * 1000.0) && arg_repID == rd.repID
 //@   callsite sendMediaSegment requires sameNumberForEveryRep: arg_segNr == nextSegNr && arg_isLast == isLast && arg_nowMS == nowMS && arg_contentType == rd.contentType
+
+// chunkSegment (C09 kernel): samples are laid out back to back from the segment's decode time
+// (the decode time given to sample i is the segment start plus the durations of samples 0..i-1),
+// every completed chunk records exactly the media time of its own samples (so the durations of
+// the completed chunks add up to the media time consumed so far), the trailing partial chunk
+// records the nominal chunk duration, which is not less than what it holds - the release times
+// computed from the chunk durations are therefore never before a chunk's own end -, chunks are
+// appended in order, and only the first chunk carries the segment type box.
+//@ func createChunk
+//@   ensures result.styp == styp && result.dur == 0
+//@   allocates
+
+//@ func chunkSegment
+//@   wiring
+//@   nowrap assumed
+//@   requires chunkDur > 0
+//@   callsite append:chunks requires chunkDurCoversItsSamples: vararg0.dur == uint64(thisChunkDur) || (vararg0.dur == uint64(chunkDur) && int(thisChunkDur) <= chunkDur)
+//@   callsite append:chunks requires stypOnlyOnFirst: (len(chunks) == 0 ==> vararg0.styp == seg.Styp) && (len(chunks) >= 1 ==> vararg0.styp == nil)
+//@   loop 2 invariant chunkNr == len(chunks)+1 && chunkNr >= 1 && totalDur >= 0 && fresh(chunks)
+//@   loop 2 invariant contiguousDecodeTimes: sampleDecodeTime == segMeta.newTime + uint64(totalDur)
+//@   loop 2 invariant int(thisChunkDur) >= 0 && int(thisChunkDur) <= totalDur
+//@   loop 2 invariant completedReachNominal: totalDur - int(thisChunkDur) >= chunkDur*(chunkNr-1)
+//@   loop 2 invariant partialBelowNominal: thisChunkDur > 0 ==> totalDur < chunkDur*chunkNr
+//@   loop 2 invariant stypOfCurrent: (len(chunks) == 0 ==> ch.styp == seg.Styp) && (len(chunks) >= 1 ==> ch.styp == nil)
+
+// SegmentBaseType.GetTimescale of the dash-mpd library: @timescale, 1 if absent (its documented default).
+//@ extern func (github.com/Eyevinn/dash-mpd/mpd.SegmentBaseType).GetTimescale(s) (r)
+//@   ensures (s.Timescale == nil ==> r == 1) && (s.Timescale != nil ==> r == *s.Timescale)
+
+// addTimeSubs (C12, MPD side): the generated subtitle adaptation sets mirror the video
+// SegmentTemplate in the 1000 Hz subtitle timescale: @duration is the video duration converted
+// with the multiplication first (no truncation to whole seconds), @startNumber is the video's,
+// and a SegmentTimeline is the video's converted by changeTimelineTimescale.
+//@ func addTimeSubs
+//@   wiring
+//@   callsite Ptr[uint32] requires durationInMs: arg0 == uint32(100+i) || arg0 == (*vST.Duration) * 1000 / vST.GetTimescale()
+//@   callsite changeTimelineTimescale requires fromVideoTimeline: arg0 == vST.SegmentTimeline && arg1 == int(*vST.Timescale) && arg2 == SUBS_TIME_TIMESCALE
+//@   callsite SetTimescale requires subtitleTimescale: arg1 == SUBS_TIME_TIMESCALE
+
+// setOffsetInAdaptationSet: the offset handed to the timeline generator is the configured
+// availabilityTimeOffset in milliseconds (fraction kept: multiplied before it is truncated).
+//@ func setOffsetInAdaptationSet
+//@   wiring
+//@   ensures  offsetInMs: err == nil ==> atoMS == int(1000 * cfg.AvailabilityTimeOffsetS)
